@@ -1,6 +1,7 @@
 """Program-level comparison of real ProbLog runs (under a configuration) with the Lean specification `Sem`
 (shared by C01-C08, C25, C26)."""
 import os
+import time
 import traceback
 
 import spine
@@ -313,14 +314,79 @@ def compare(P, sem, run, tag, ctx=None, extra_sig=None):
     return out
 
 
+FO_STATS = {"fo": 0, "old-path-only": 0, "seconds": 0.0, "seconds-old-path": 0.0}
+
+
+def _report_stats():
+    if FO_STATS["fo"] or FO_STATS["old-path-only"]:
+        import sys
+        sys.stderr.write("spec_batch: %r\n" % (FO_STATS,))
+
+
+if os.environ.get("VERIF_SPEC_STATS") or os.environ.get("VERIF_SPEC_TIMING"):
+    import atexit
+    atexit.register(_report_stats)
+
+
 def spec_batch(drv, progs):
-    lines, qis = [], []
+    """The specification value of every program. The value comes from op SEMFO: the first-order program is handed to Lean,
+    which does the Herbrand instantiation (`SemFO.ground`, proved in Properties/C01FO.lean) and evaluates `Sem.run`.
+    It is cross-checked on every program against the former path (Python `spine.reference` + op SEM) - result by result -
+    and the Lean ground program is compared textually with `spine.reference` (op GROUNDFO). A disagreement is a defect of
+    the verification machinery: `lib.Infra`. Programs `spine.fo_sexp` cannot represent (or that Lean reports as
+    ill-formed w.r.t. their declared signature) keep the former path; they are counted in FO_STATS["old-path-only"]."""
+    from lib import Infra
+    lines, meta = [], []
+    old_only = bool(os.environ.get("VERIF_SPEC_OLD"))    # the former path alone (Python grounding), for comparison runs
     for P in progs:
         line, qinst = spine.sem_line(P)
+        fo = None if old_only else spine.fo_sexp(P)
+        meta.append((len(lines), qinst, fo is not None))
         lines.append(line)
-        qis.append(qinst)
+        if fo is not None:
+            lines.append("SEMFO " + fo)
+            lines.append("GROUNDFO " + fo)
+    t0 = time.time()
     outs = drv.run(lines)
-    return [spine.parse_sem(o, q) for o, q in zip(outs, qis)]
+    FO_STATS["seconds"] += time.time() - t0
+    if os.environ.get("VERIF_SPEC_TIMING"):
+        # what the former path alone costs (measurement aid only)
+        t0 = time.time()
+        drv.run([lines[i] for i, _, _ in meta])
+        FO_STATS["seconds-old-path"] += time.time() - t0
+    res = []
+    for P, (i, qinst, has_fo) in zip(progs, meta):
+        old = spine.parse_sem(outs[i], qinst)
+        new = spine.parse_sem_fo(outs[i + 1]) if has_fo else None
+        if new is None:
+            FO_STATS["old-path-only"] += 1
+            res.append(old)
+            continue
+        FO_STATS["fo"] += 1
+        fo_res, qnames = new
+
+        def bad(what):
+            raise Infra("first-order specification (SEMFO) disagrees with reference+SEM on %s | program: %s | SEM: %s | SEMFO: %s"
+                        % (what, spine.to_src(P).replace("\n", " "), outs[i][:300], outs[i + 1][:300]))
+        if outs[i + 2] != spine.reference_text(P):
+            bad("the ground program")
+        if sorted(qnames) != sorted(spine.atom_s(q) for q in qinst) or len(set(qnames)) != len(qnames):
+            bad("the set of query instances")
+        if (old is None) != (fo_res is None):
+            bad("the number of worlds (too big)")
+        if old is not None:
+            nums = fo_res.pop("nums")
+            if nums != spine.sem_numerators(outs[i], qinst):
+                bad("a query numerator")
+            for k in ("z", "undef", "nworlds", "negcycle", "negcycle_full", "undef_roots", "probs"):
+                if old[k] != fo_res[k]:
+                    bad(k)
+            if set(old) != set(fo_res):
+                bad("result keys")
+            # same key order as the former path (query order of `query_instances`)
+            fo_res["probs"] = {k: fo_res["probs"][k] for k in old["probs"]}
+        res.append(fo_res)
+    return res
 
 
 def same_failure(a, b):
